@@ -26,6 +26,8 @@ R4 (K1) both out-of-date checks dominate get_commit_builder (shared with C01-R4)
 R5 (K1) uncommit(): the master tip is moved before the local tip, both under `not dry_run`.
 overwrite-always-moves-tip: every _update_revisions implementation (branch.py, git/branch.py) reaches its tip-setting call on
 every normal path when overwrite is true (third-round seed).
+Fourth round: InterFromGitBranch.pull reaches the local _basic_pull only through master_branch.pull once the master was looked up;
+switch._set_branch_location passes set_bound_location(<branch>) on every way out after set_bound_location(None).
 Does not decide: that update/pull in a checkout leave local == master for all histories.
 """
 
@@ -167,9 +169,19 @@ def run(ctx):
             w_ = gu.path([gu.entry], [gu.exit], avoid=set(tip)) if gu.exit in r_ else None
             ctx.check("overwrite-always-moves-tip", f"{rel_}:{q_}", bool(tip) and gu.exit not in r_, f"{q_}: with overwrite the tip-setting call is reached on every normal path", message=f"{q_} can return under overwrite=True without setting the target's tip (a shortcut for 'already an ancestor'): `update` of a checkout that is ahead of its master leaves the local branch where it was, out of step with the master, and every later commit is refused with BoundBranchOutOfDate", witness=gu.show_path(w_) if w_ else None)
     ctx.require(n_ur >= 2, f"only {n_ur} _update_revisions implementations with an overwrite parameter found")
+    # ---- a switch that unbinds a heavyweight checkout binds it again on every way out -----------------------------------
+    SW = "breezy/switch.py"
+    fsw, gsw, wsw = fn_cfg(ctx, SW, "_set_branch_location")
+    unb = [n.id for n in gsw.nodes if any(call_attr(c) == "set_bound_location" and c.args and norm(c.args[0]) == "None" for c in n.calls())] + calling(gsw, attr="unbind")
+    reb = [n.id for n in gsw.nodes if any(call_attr(c) == "set_bound_location" and c.args and norm(c.args[0]) != "None" for c in n.calls())] + calling(gsw, attr="bind")
+    need(wsw, unb, "b.set_bound_location(None)")
+    starts_sw = [b for i in unb for (b, l) in gsw.succ[i] if l != "X" and b not in reb]
+    esc_sw = {gsw.exit, gsw.raise_exit} & gsw.reach(starts_sw, avoid=set(reb), include_src=True)
+    ctx.check("switch-rebinds-on-every-exit", wsw, bool(reb) and not esc_sw, "after the checkout was unbound, every way out (a failing pull included) passes set_bound_location(<a branch>)", construct="leaves unbound through " + " and ".join(sorted("a return" if e == gsw.exit else "an exception" for e in esc_sw)) if esc_sw else "", message="_set_branch_location unbinds the heavyweight checkout, pulls from the new branch and binds again — without a handler: when the pull fails the checkout stays unbound, the switch is reported as failed and the next commit silently changes the local branch only, leaving it ahead of (and unknown to) its master")
 
 
 MUTANTS = [
+    Mutant("failed switch leaves the checkout unbound (fix de9e61d reverted)", "breezy/switch.py", "                except BaseException:\n                    # Still a checkout of the branch it was bound to.\n                    b.set_bound_location(bound_branch)\n                    raise\n", "                except BaseException:\n                    raise\n", expect="switch-rebinds-on-every-exit"),
     Mutant("git pull skips the tip when the revision is already merged, overwrite or not", "breezy/git/branch.py", "        _update_tip(self.source, self.target, self._last_revid, overwrite)\n        return head, refs\n", "        if self.target.repository.get_graph().is_ancestor(self._last_revid, self.target.last_revision()):\n            return head, refs\n        _update_tip(self.source, self.target, self._last_revid, overwrite)\n        return head, refs\n", expect="overwrite-always-moves-tip"),
     Mutant("local tip set before the master import", CM, "        if not self.builder.updates_branch:\n            self._process_pre_hooks(old_revno, new_revno)\n", "        if not self.builder.updates_branch:\n            self._process_pre_hooks(old_revno, new_revno)\n            self.branch.set_last_revision_info(new_revno or 1, self.rev_id)\n", expect="R1-master-first"),
     Mutant("BoundBranchOutOfDate raise dropped", CM, "        if local_revid != master_revid:\n            raise errors.BoundBranchOutOfDate(self.branch, self.master_branch)\n", "        if local_revid != master_revid:\n            mutter(\"bound branch out of date\")\n", expect="R2-out-of-date-refused"),
